@@ -8,6 +8,7 @@ analysis) and side conditions (definedness, unit errors).
 """
 from __future__ import annotations
 
+import hashlib
 import itertools
 import time
 from fractions import Fraction as Fr
@@ -102,15 +103,25 @@ def ctx() -> Ctx:
 _feas_cache = {}
 
 
+_FEASIBLE_MEMO = {}
+
+
 def feasible(cs, timeout_ms=5000):
     c = ctx()
     t0 = time.time()
+    # the same question recurs when a function is re-run for operand-shape / alias variants: memoise on the printed formulas
+    key = hashlib.sha1('\x00'.join(sorted({x.sexpr() for x in cs})).encode()).digest()
+    hit = _FEASIBLE_MEMO.get(key)
+    if hit is not None:
+        c.solver_s += time.time() - t0
+        return hit
     s = z3.Solver()
     s.set('timeout', timeout_ms)
     s.add(*cs)
     r = s.check()
     c.nsolver += 1
     c.solver_s += time.time() - t0
+    _FEASIBLE_MEMO[key] = r != z3.unsat
     return r != z3.unsat  # unknown counts as feasible (sound: more paths, never fewer)
 
 
@@ -274,6 +285,9 @@ def explore(fn, base=(), opts=None, catch=(Exception,), max_paths=2000):
 
 
 # ---- common real-arithmetic helpers with axioms -------------------------------------------
+
+ROUNDINGS = {}   # name of a fresh integer -> ('rint' | 'trunc', real term it rounds): lets concrete evaluation close such symbols
+
 
 def fresh_real(stem):
     return z3.Real(fresh_name(stem))
